@@ -1134,6 +1134,11 @@ func (in *Interp) builtin(b *ssa.Builtin, args []Val, site ssa.CallInstruction) 
 			if in.ch.eqStr("s:"+x.Key, "c:") {
 				return kInt(0)
 			}
+			// a length nobody declared a domain for is a size (a buffer
+			// being pre-sized): uninterpreted
+			if in.sym.IntDomain == nil || len(in.sym.IntDomain("len("+x.Key+")")) == 0 {
+				return Opaque{"len(" + x.Key + ")", types.Typ[types.Int]}
+			}
 			return SymInt{"len(" + x.Key + ")"}
 		case Opaque:
 			if in.sym.OpaqueLen {
@@ -1143,6 +1148,10 @@ func (in *Interp) builtin(b *ssa.Builtin, args []Val, site ssa.CallInstruction) 
 		}
 		in.undecided("len of %T at %s", args[0], in.c.P.instrPos(site))
 	case "append":
+		// bytes appended to a buffer that is text so far: concatenation
+		if v, ok := in.appendText(args, site); ok {
+			return v
+		}
 		base := in.sliceVal(args[0], site)
 		out := Slice{NonNil: base.NonNil}
 		out.E = append(out.E, base.E...)
@@ -1166,4 +1175,88 @@ func (in *Interp) builtin(b *ssa.Builtin, args []Val, site ssa.CallInstruction) 
 	}
 	in.undecided("builtin %s at %s", b.Name(), in.c.P.instrPos(site))
 	return nil
+}
+
+// appendText: append(b, s...) / append(b, 'c') on a byte buffer whose content
+// is text (empty, a constant, a symbolic string): the result is the
+// concatenation, with the key the + operator gives.
+func (in *Interp) appendText(args []Val, site ssa.CallInstruction) (Val, bool) {
+	if len(args) != 2 {
+		return nil, false
+	}
+	st, ok := site.Common().Args[0].Type().Underlying().(*types.Slice)
+	if !ok {
+		return nil, false
+	}
+	if b, ok := st.Elem().Underlying().(*types.Basic); !ok || b.Kind() != types.Uint8 {
+		return nil, false
+	}
+	text := func(v Val) (Val, bool) {
+		switch x := v.(type) {
+		case SymStr:
+			return x, true
+		case Konst:
+			if x.V == nil {
+				return kStr(""), true
+			}
+			if _, isS := constStringVal(x); isS {
+				return x, true
+			}
+		case Slice:
+			// a literal list of constant bytes
+			bs := make([]byte, 0, len(x.E))
+			for _, c := range x.E {
+				k, isK := c.Get().(Konst)
+				if !isK || k.V == nil || k.V.Kind() != constant.Int {
+					return nil, false
+				}
+				i, _ := constant.Int64Val(k.V)
+				if i < 0 || i > 255 {
+					return nil, false
+				}
+				bs = append(bs, byte(i))
+			}
+			return kStr(string(bs)), true
+		}
+		return nil, false
+	}
+	a, ok1 := text(args[0])
+	b, ok2 := text(args[1])
+	if !ok1 || !ok2 {
+		return nil, false
+	}
+	// only when one side is symbolic: buffers of constant bytes stay slices
+	_, s1 := a.(SymStr)
+	_, s2 := b.(SymStr)
+	if !s1 && !s2 {
+		ka, _ := a.(Konst)
+		kb, _ := b.(Konst)
+		sa, _ := constStringVal(ka)
+		sb, _ := constStringVal(kb)
+		if sa == "" && sb == "" {
+			return nil, false
+		}
+		return kStr(sa + sb), true
+	}
+	return in.concatText(a, b), true
+}
+
+// concatText: the symbol the + operator gives for two texts.
+func (in *Interp) concatText(a, b Val) Val {
+	if ka, ok := a.(Konst); ok {
+		if sa, _ := constStringVal(ka); sa == "" {
+			return b
+		}
+		if kb, ok := b.(Konst); ok {
+			sa, _ := constStringVal(ka)
+			sb, _ := constStringVal(kb)
+			return kStr(sa + sb)
+		}
+	}
+	if kb, ok := b.(Konst); ok {
+		if sb, _ := constStringVal(kb); sb == "" {
+			return a
+		}
+	}
+	return SymStr{Key: "(" + keyOf(a) + "+" + keyOf(b) + ")", HostPath: hostPath(a) || hostPath(b)}
 }
